@@ -24,7 +24,7 @@ RULE = ('seeded random (pva, lever arm, body rates present/absent, measurement v
         " Round 3: lever arms with exactly-zero components ([x, 0, 0]) judged against the lever the harness passed (not the object's copy), measurement tables with permuted / extra columns, simulated fixes for a vehicle within metres of the antimeridian.")
 ASSUMPTIONS = ['Jacobian reference = Richardson central differences of the real residual through the real correct_pva; '
                'steps 10 m / 1 m/s / 1e-4 rad', 'position residual compared to first order: bound 4|z|^2 (1+tan lat)/R']
-REQUIRED_OBS = ['lever_with_zero_components', 'data_columns_permuted', 'simulated_fixes_at_antimeridian', 'history_independence_checked', 'residual_checked', 'jacobian_checked', 'noise_checked', 'absent_time_checked', 'sim_zero_residual',
+REQUIRED_OBS = ['repeated_value_rows_checked', 'lever_with_zero_components', 'data_columns_permuted', 'simulated_fixes_at_antimeridian', 'history_independence_checked', 'residual_checked', 'jacobian_checked', 'noise_checked', 'absent_time_checked', 'sim_zero_residual',
                 'sim_injected_error', 'translate_consistency', 'lever_and_rates_cases']
 REQUIRED_CLASSES = {'all': ['Position', 'NedVelocity', 'BodyVelocity', 'simulators']}
 LLA = ['lat', 'lon', 'alt']
@@ -244,21 +244,21 @@ def run_case(case):
                 if rng.random() < 0.3:
                     data['extra'] = 1.0
                 if rng.random() < 0.3:
-                    data = forms.shuffle_table(data, rng, extra=False)
+                    data = forms.shuffle_table(data, rng, extra=bool(rng.integers(0, 2)), nan_extra=True)
                     bump('data_columns_permuted')
                 meas = measurements.Position(data, sd, lever)
             elif cls == 'NedVelocity':
                 data = pd.DataFrame(pva[VEL].values.astype(float) + rng.standard_normal((len(times), 3)) * (30 if far else 0.3),
                                     index=times, columns=VEL)
                 if rng.random() < 0.4:
-                    data = forms.shuffle_table(data, rng, extra=bool(rng.integers(0, 2)))
+                    data = forms.shuffle_table(data, rng, extra=bool(rng.integers(0, 2)), nan_extra=True)
                     bump('data_columns_permuted')
                 meas = measurements.NedVelocity(data, sd, lever)
             else:
                 data = pd.DataFrame(C.T @ pva[VEL].values.astype(float) + rng.standard_normal((len(times), 3)) * (30 if far else 0.3),
                                     index=times, columns=BV)
                 if rng.random() < 0.4:
-                    data = forms.shuffle_table(data, rng, extra=bool(rng.integers(0, 2)))
+                    data = forms.shuffle_table(data, rng, extra=bool(rng.integers(0, 2)), nan_extra=True)
                     bump('data_columns_permuted')
                 meas = measurements.BodyVelocity(data, sd)
                 lever = None
@@ -266,6 +266,15 @@ def run_case(case):
             if lever is not None and np.any(lever != 0) and with_rates:
                 bump('lever_and_rates_cases')
             ret = meas.compute_matrices(t, pva, em)
+            # records whose VALUES repeat at different stamps (zero-velocity updates, a parked vehicle, a quantised odometer): every stamp is a sample
+            rep = data[[c for c in data.columns if c != 'rv_extra' and c != 'extra']].copy()
+            rep.iloc[:] = rep.iloc[0].values
+            mrep = type(meas)(rep, sd, *([lever] if cls != 'BodyVelocity' else []))
+            for tr_ in rep.index:
+                bump('repeated_value_rows_checked')
+                if mrep.compute_matrices(float(tr_), pva, em) is None:
+                    out.append(vio('present_time', f'{cls}: time {tr_!r} is in the data (a row whose values repeat an earlier row) but nothing was returned'))
+                    break
             if ret is None:
                 out.append(vio('present_time', f'{cls}: nothing returned at a time present in the data'))
             # absent times: between samples, nextafter neighbours
